@@ -384,10 +384,14 @@ class KMIPProxy(object):
         batch_item = response_message.batch_items[0]
 
         if batch_item.result_status.value != enums.ResultStatus.SUCCESS:
+            # The result message is optional in a KMIP response.
+            result_message = None
+            if batch_item.result_message is not None:
+                result_message = batch_item.result_message.value
             raise exceptions.OperationFailure(
                 batch_item.result_status.value,
                 batch_item.result_reason.value,
-                batch_item.result_message.value
+                result_message
             )
 
         if batch_item.operation.value != operation:
